@@ -68,7 +68,11 @@ def _check_huge_inputs(par):
     ns = par['ns']
     rs = np.random.RandomState(par['seed'])
     case = _expand_large({'sizes': [50, 60], 'seed': par['seed']})
+    import shutil
     with env.scratch() as d:
+        if shutil.disk_usage(str(d)).free < 160 * ns * 3:
+            # about 1.3 GB of scratch space per 9 million spikes (inputs + merged output)
+            raise core.Reject('not enough scratch space for the huge-inputs case')
         Ts = G.build_probes(case, d)
         # the second probe is a long recording: its per-spike files are replaced by big ones
         big = Ts[1].dir
